@@ -19,6 +19,7 @@ func searchUnstake(w *World, found map[string]bool) int {
 	n := 0
 	for _, amount := range cases {
 		w.univ = universe()
+		w.fork = forkPoints[0]
 		w.Reset(true)
 		src, k := eoas[0], contracts[0]
 		w.Set(src, rpg(5000))
